@@ -546,6 +546,37 @@ func (bc *binCase) runCollect(c *Ctx) *binResult {
 	return decodeBinResult(bc.dim, v, err, c)
 }
 
+// collectTwice: see verdict (5); "" = fine
+func (bc *binCase) collectTwice() string {
+	var parts []value.Value
+	i := 0
+	for _, p := range bc.parts {
+		var items []value.Value
+		for _, r := range p {
+			items = append(items, bc.recValue(r, i))
+			i++
+		}
+		parts = append(parts, value.NewList(items...))
+	}
+	show := "x->x.string()"
+	src := "let bs=ps.map(p->" + bc.call("p") + ").eval(); let before=bs.map(" + show + ").string(); let r1=bs.collectBinning(); let s1=r1.string(); " +
+		"let r2=bs.collectBinning(); let r3=[bs[0],bs[bs.size()-1]].collectBinning(); let r4=bs.collectBinning(); " +
+		"[before=bs.map(" + show + ").string(), s1=r2.string(), s1=r4.string(), s1=r1.string()].string()"
+	f, err := binProg(src, append([]string{"ps"}, binAxisNames[:3*bc.dim]...)...)
+	if err != nil {
+		return "" // the form is not expressible: nothing to say
+	}
+	args := append([]value.Value{value.NewList(parts...)}, bc.axisArgs()...)
+	v, err := f.Eval(args...)
+	if err != nil {
+		return "collecting the same binnings repeatedly fails: " + err.Error()
+	}
+	if sv, ok := v.(value.String); !ok || string(sv) != "[true, true, true, true]" {
+		return fmt.Sprintf("[parts unchanged, second collect = first, fourth collect = first, first result unchanged] = %v", v)
+	}
+	return ""
+}
+
 // singleton index: where does the implementation count one element? (diagnosis of a wrong histogram)
 func (bc *binCase) implIndex(c *Ctx, d int, x float64) int {
 	one := &binCase{dim: 1, form: 0}
@@ -785,6 +816,13 @@ func (bc *binCase) checkExact(c *Ctx, whole, coll *binResult) []binVerdict {
 	// (4) additivity: collectBinning over the parts' binnings = binning of the whole (bit for bit)
 	if coll.canon(bc.dim, binBits) != whole.canon(bc.dim, binBits) {
 		out = append(out, binVerdict{"additive:collect-differs", "collectBinning of the parts differs from the binning of the whole list"})
+	}
+	// (5) the collector is an observer of its parts: the same materialised binnings collected twice, then the first with the
+	// last only, give equal / consistent results, the parts are what they were, and the first result does not change
+	if len(bc.parts) >= 2 && coll.err == "" {
+		if msg := bc.collectTwice(); msg != "" {
+			out = append(out, binVerdict{"additive:collect-changes-its-parts", msg})
+		}
 	}
 	return out
 }
